@@ -33,9 +33,10 @@ def run(ctx):
             ctx.violation("%s:%s:%s" % (kind, d.get("diag"), d.get("id")),
                           "pipeline differs: %s" % d.get("diag"), gencheck.short(d))
     # the Encoder half on never-Reset Encoders whose first call coincides with the initial state (what is written must
-    # decode to what was called), and the Renderer half when the target is set late or changed between paths
+    # decode to what was called) and with runs of every drawing verb at and beyond the repeat limits of the opcodes, and
+    # the Renderer half when the target is set late or changed between paths
     from lib import enccheck
-    z = enccheck.run_enc_traces(ctx, ["zerofirst", "wellformed"], 90 if quick else 3000, ["err", "mode", "run", "lod", "sel"], want=("enc", "rt"), sub="zerofirst", shards=4)
+    z = enccheck.run_enc_traces(ctx, ["zerofirst", "wellformed", "runs", "longruns"], 90 if quick else 3000, ["err", "mode", "run", "lod", "sel"], want=("enc", "rt", "dec"), sub="zerofirst", shards=4)
     for kind, ds in z["diags"].items():
         for d in ds:
             ctx.violation("zerofirst:%s:%s:%s" % (kind, d.get("diag"), d.get("id")),
